@@ -374,3 +374,31 @@ func VerifC19_T_select_ladder() {
 	sym.Assert(s1-s0 <= 10*bound, "C19.T3.select-work-polynomial")
 	sym.Reach("C19.T.select-ladder")
 }
+
+// S4: the platform rule itself, on arbitrary platform strings: a target restricted to a list of
+// platforms is compatible iff one entry IS the host platform (not a prefix, suffix or
+// case-variant of it); unrestricted targets, aliases and --all-platforms always are.
+func VerifC12_S_platform_rule() {
+	n := 3
+	if sym.Tier() == "thorough" {
+		n = 4
+	}
+	hostOS := sym.StringAlpha("host_os", n, "ab")
+	hostArch := sym.StringAlpha("host_arch", n, "ab6")
+	config.Global.OS, config.Global.Arch = hostOS, hostArch
+	config.Global.AllPlatforms = flag("allplatforms")
+	host := hostOS + "/" + hostArch
+	t := &model.Target{Label: label.TL("p", "t")}
+	k := sym.Choice("n_platforms", 3)
+	var any bool
+	for i := 0; i < k; i++ {
+		p := sym.StringAlpha(fmt.Sprintf("platform_%d", i), 2*n+1, "ab6/")
+		t.Platforms = append(t.Platforms, p)
+		any = sym.Or(any, sym.StrEq(p, host))
+	}
+	want := sym.Or(config.Global.AllPlatforms || k == 0, any)
+	sym.Assert(sym.Iff(nodeMatchesPlatform(t), want), "C12.S4.platform-compatible-iff-listed-exactly")
+	sym.Assert(nodeMatchesPlatform(&model.Alias{Label: label.TL("p", "a"), Actual: t.Label}), "C12.S4.aliases-have-no-platform")
+	sym.Reach("C12.S.platform-rule")
+	config.Global.OS, config.Global.Arch, config.Global.AllPlatforms = "linux", "amd64", false
+}
